@@ -19,8 +19,41 @@ theorem C02_built (inp : List Nat) (o : Opts) (b : Built) (hb : Spec.IsBytes inp
       r.remainder = List.replicate (Iso.remainderBits b.version) false ∧
       r.blocks.map (·.1.length) = Decode.blockSizes b.version b.ecl ∧
       (∀ blk ∈ r.blocks, blk.2.length = Decode.ecLen b.version b.ecl ∧
-        ∀ s ∈ GF.syndromes (blk.1 ++ blk.2) (Decode.ecLen b.version b.ecl), s = 0) :=
-  BlocksRoundTrip.built_blocks inp o b hb ho halpha h
+        ∀ s ∈ GF.syndromes (blk.1 ++ blk.2) (Decode.ecLen b.version b.ecl), s = 0) := by
+  obtain ⟨r, h1, h2, h3, h4, h5, h6⟩ := BlocksRoundTrip.built_blocks inp o b hb ho halpha h
+  exact ⟨r, h1, h2, h3, h4, h5, fun blk hblk => ⟨(h6 blk hblk).1, (h6 blk hblk).2.1⟩⟩
+
+/-- **C02 (the advertised recovery capacity is real)**: in every built symbol, every block `c` (data ++
+EC as read from the symbol) is the ONLY word with all-zero syndromes within ⌊ec/2⌋ symbol errors of any
+received word `rx` that differs from `c` in at most ⌊ec/2⌋ codewords. A standard Reed-Solomon decoder
+returns a codeword within its correction radius ⌊ec/2⌋ of the received word, so it returns `c`: the
+payload is recovered. (Minimum distance ec + 1 of the code with roots alpha^0..alpha^(ec-1): Vandermonde
+argument over GF(256)/0x11D, `Proofs/Distance.lean`.) -/
+theorem C02_recovery (inp : List Nat) (o : Opts) (b : Built) (hb : Spec.IsBytes inp) (ho : LegalOpts o)
+    (halpha : Spec.alphabetOK (o.mode.getD (bestEncoding inp)) inp = true)
+    (h : (build inp o).val = .ok b) :
+    ∃ r, Decode.decode ⟨b.qr.n, b.qr.cells⟩ (Regions.regionMap b.version) = .ok r ∧
+      ∀ blk ∈ r.blocks, ∀ rx c' : List Nat,
+        (blk.1 ++ blk.2).length = rx.length → Distance.dist (blk.1 ++ blk.2) rx ≤ Decode.ecLen b.version b.ecl / 2 →
+        Distance.Codeword (Decode.ecLen b.version b.ecl) c' → c'.length = rx.length →
+        Distance.dist c' rx ≤ Decode.ecLen b.version b.ecl / 2 → c' = blk.1 ++ blk.2 := by
+  obtain ⟨r, h1, _, _, _, _, h6⟩ := BlocksRoundTrip.built_blocks inp o b hb ho halpha h
+  refine ⟨r, h1, ?_⟩
+  intro blk hblk rx c' hl herr hc' hl' hnear
+  obtain ⟨_, hsyn, hbytes, h255⟩ := h6 blk hblk
+  have hcw : Distance.Codeword (Decode.ecLen b.version b.ecl) (blk.1 ++ blk.2) := by
+    refine ⟨hbytes, ?_⟩
+    intro i hi
+    apply hsyn
+    simp only [GF.syndromes, List.mem_map, List.mem_range]
+    exact ⟨i, hi, rfl⟩
+  exact Distance.unique_decoding _ _ _ _ hcw hc' hl hl' h255 herr hnear
+
+/-- the code itself, independent of the crate: words of at most 255 bytes with zero syndromes at
+alpha^0..alpha^(ec-1) that differ in at most `ec` positions are equal (minimum distance ec + 1) -/
+theorem C02_min_distance (ec : Nat) (u w : List Nat) (hu : Distance.Codeword ec u) (hw : Distance.Codeword ec w)
+    (hlen : u.length = w.length) (h255 : u.length ≤ 255) (hd : Distance.dist u w ≤ ec) : u = w :=
+  Distance.codeword_unique ec u w hu hw hlen h255 hd
 
 /-- the block split for ANY data buffer (not only encoder output), any level and mask -/
 theorem C02_blocks_any {v m : Nat} (hv : v < 40) (hm : m < 8) (l : ECL) (data : Array Nat)
